@@ -27,7 +27,14 @@ MANIFEST = dict(
          "fuel always empties it; on a channel with a final chunk or a disconnect, after any events, delivering the rest and "
          "running the queue finishes every started access.  WSGI: the model loop never stops for lack of fuel and read() is "
          "called at most total+1 times (pieces+1 when the pieces fit the chunk size).  The model is "
-         "compared with baize.asgi.Request on a real asyncio loop stepped deterministically, and with baize.wsgi.Request.",
+         "compared with baize.asgi.Request on a real asyncio loop stepped deterministically, and with baize.wsgi.Request.  "
+         "WSGI with failing reads (readfault_never_truncated / readfault_error_then_consumed / readfault_reads_once, model "
+         "C10/ReadFault.v): wsgi.input.read() may raise at any call, once or for good (the input is a list of option pieces); for "
+         "every such input, chunk size and access sequence an access that returns a body-derived value returns the one derived from "
+         "the concatenation of ALL pieces (and then no read of the input raises), k items of stream() are a prefix; an access fails "
+         "in a read only when the input has a failing read, it leaves _stream_consumed set and nothing cached, the state never "
+         "changes again, every later access that needs the body raises the documented RuntimeError and none raises the read error "
+         "again; bytes read plus input left is the input, and once the input is taken no access reads.",
     note="Modelled, not verified: asyncio (tasks run atomic segments between awaits; the ready queue is FIFO in the correspondence, "
          "arbitrary in the safety theorems, FIFO in the fuel bound), CPython async generators, json.loads / parse_qsl (oracle passed "
          "per case).  Liveness is proved for the model (no fairness assumption is needed: a segment never re-queues itself); that "
@@ -44,13 +51,19 @@ RULE = ("ASGI cases: every access sequence up to length n (quick 3, thorough 4) 
         "sequence of length n+1 x every grouping (thorough: every second one) with 2 (thorough 1) random (channel, delivery, "
         "content type) each; random longer schedules over random chunkings of random bodies with every "
         "disconnect position.  WSGI cases: every access sequence up to length 3 (thorough 4) over 10 accesses (chunk sizes 1, 2, "
-        "65536) x 6 piece lists (length 4: 3 in rotation) x 3 content types.  non-trivial = at least two body-derived accesses and the channel is touched")
+        "65536) x 6 piece lists (length 4: 3 in rotation) x 3 content types.  non-trivial = at least two body-derived accesses and the channel is touched.  "
+        "WSGI with failing reads: every access sequence up to length 3 over 8 accesses (body, stream 2 / 65536, 1 item of stream(1), 2 items "
+        "of stream(65536), json, form, close) x 3 content types x 4 chunkings (length 3, quick: 1 in rotation) x every position of one "
+        "failing read (before each piece and at the end) x failing once / for good (lengths 1-2: also no failing read); random bodies "
+        "(JSON, urlencoded, malformed, plain) x random cuts x 0-2 failing reads x once / for good x 1-6 accesses with random chunk "
+        "sizes; non-trivial there = a read raised during an access and a later access needs the body")
 TRUSTED = ["model of asyncio: a task runs atomically between two awaits, a done future schedules its callbacks in registration "
            "order, the ready queue is FIFO (theorems: any order)",
            "json.loads / parse_qsl / bytes.decode as an oracle function of the body bytes: value or exception class, passed per "
            "case (obtained from a fresh single-piece request through the library itself)"]
 ASSUMPTIONS = ["the server answers receive() calls in call order (scripted receive)",
-               "wsgi.input.read(n) returns between 1 and n bytes until the end of the input, then b'' (PEP 3333), and does not raise",
+               "wsgi.input.read(n) returns between 1 and n bytes until the end of the input, then b'' (PEP 3333), and does not raise "
+               "(the w_* theorems; the readfault_* theorems and the 'f' cases drop 'does not raise': any call may raise an OSError)",
                "content types multipart/form-data are outside this property (C01)"]
 EXHAUSTIVE = {"quick": True, "thorough": True}
 PARTIAL = ("asyncio is modelled, not verified: tasks run atomic segments between awaits; the correspondence fixes the ready queue "
@@ -154,7 +167,10 @@ def reference(mode, cti, body):
 
 def tables(case):
     mode, _, xs = case[0], case[1], case[2]
-    body = body_of(xs) if mode == "a" else b"".join(xs)
+    if mode == "f":
+        body = fault_body(xs)
+    else:
+        body = body_of(xs) if mode == "a" else b"".join(xs)
     if body is None:
         return [], []
     j, f = reference(mode, case[6], body)
@@ -176,6 +192,8 @@ def _preimport():
 def ENCODE(case):
     _preimport()
     jt, ft = tables(case)
+    if case[0] == "f":
+        return core.enc_line([case[0], case[1], fault_model_script(case), case[3], jt, ft] + list(case[6:7]))
     # case[7] (WSGI only: how the gateway frames the body, see impl_wsgi) is not the model's business
     return core.enc_line(list(case[:4]) + [jt, ft] + list(case[6:7]))
 
@@ -355,6 +373,7 @@ def cases(tier, rng):
         accs = [[a[0], a[1], rng.choice([1, 2, 3, 5, 65536])] for a in
                 (rng.choice(ALPHA + [[PART, 0], [PART, 3]]) for _ in range(rng.randrange(1, 7)))]
         yield "wsgi-random", mk_wsgi(cti, pieces, accs) + ([rng.choice([1, 2])] if rng.random() < 0.3 else [])
+    yield from fault_cases(tier, rng, cti_of)
 
 
 def search_cases(tier, rng, mism):
@@ -570,6 +589,8 @@ def impl_wsgi(case):
 
 
 def impl(case):
+    if case[0] == "f":
+        return impl_fault(case)
     if case[0] == "a":
         return impl_asgi(case)
     return impl_wsgi(case)
@@ -773,6 +794,8 @@ def oracle_wsgi(case, obs):
 def oracle(case, obs):
     if obs and obs[0] == "driver-exception":
         return ("raises-" + str(obs[1]), "driver raised %s: %s" % (obs[1], obs[2]))
+    if case[0] == "f":
+        return oracle_fault(case, obs)
     if case[0] == "a":
         return oracle_asgi(case, obs)
     return oracle_wsgi(case, obs)
@@ -780,6 +803,8 @@ def oracle(case, obs):
 
 def nontrivial(case, obs):
     cls = case[1]
+    if case[0] == "f":
+        return nontrivial_fault(case, obs)
     if case[0] == "a":
         n = sum(1 for s in case[3] if s[0] == 0 and (_derived(s[1], s[2], cls) or s[1] == STREAM or (s[1] == PART and s[2] > 0)))
         return n >= 2 and obs[1] > 0
@@ -789,6 +814,9 @@ def nontrivial(case, obs):
 
 def shrink(case):
     mode, cls, xs, steps, jt, ft, cti = case[:7]
+    if mode == "f":
+        yield from shrink_fault(case)
+        return
     if mode == "a":
         for i in range(len(steps)):
             if steps[i][0] == 0 or (steps[i][0] == 2 and i + 1 < len(steps)):
@@ -813,6 +841,256 @@ def shrink(case):
             yield mk_wsgi(cti, xs, steps[:i] + steps[i + 1:]) + list(case[7:])
         for i in range(len(xs)):
             yield mk_wsgi(cti, xs[:i] + xs[i + 1:], steps) + list(case[7:])
+
+
+# ---------------------------------------------------------------- WSGI with failing reads (C10/ReadFault.v)
+#
+# A case is ["f", class, script, accesses, [], [], content type index, for_good]: the script lists the calls of
+# wsgi.input.read: [0, piece] = the call returns (at most chunk_size bytes of) the piece, [1] = the call raises
+# TimeoutError (an OSError: the WSGI counterpart of a disconnect); for_good = 1: once a call has raised, every later
+# call raises too (for the model: the rest of the script is replaced by failing calls, see fault_model_script).
+
+FAIL = [1]
+FALPHA = [[BODY, 0, 0], [STREAM, 0, 2], [STREAM, 0, 65536], [PART, 1, 1], [PART, 2, 65536], [JSON, 0, 0], [FORM, 0, 0],
+          [CLOSE, 0, 0]]
+READ_ERRORS = ("TimeoutError",)
+
+
+def fault_body(script):
+    """what the client sent: all pieces of the script (up to an empty piece, which is the end of the input)"""
+    out = b""
+    for it in script:
+        if it[0] == 0:
+            if not it[1]:
+                break
+            out += bytes(it[1])
+    return out
+
+
+def fault_has(script):
+    return any(it[0] != 0 for it in script)
+
+
+def fault_model_script(case):
+    script = [list(it) for it in case[2]]
+    if len(case) > 7 and case[7]:
+        for i, it in enumerate(script):
+            if it[0] != 0:
+                return script[:i + 1] + [list(FAIL) for _ in range(len(case[3]) + 1)]
+    return script
+
+
+def mk_fault(cti, script, accs, forgood):
+    return ["f", CTS[cti][0], script, accs, [], [], cti, 1 if forgood else 0]
+
+
+def fault_scripts(pieces, with_clean):
+    """(script, for_good) for every position of one failing read, failing once / for good"""
+    if with_clean:
+        yield [[0, p] for p in pieces], 0
+    for i in range(len(pieces) + 1):
+        head = [[0, p] for p in pieces[:i]]
+        yield head + [list(FAIL)] + [[0, p] for p in pieces[i:]], 0
+        yield head + [list(FAIL)], 1
+
+
+def fpieces(x):
+    a, b, c = x[:1], x[1:2], x[2:]
+    return [[x], [a, b + c], [a, b, c], [a + b, c]]
+
+
+def fault_cases(tier, rng, cti_of):
+    depth = 3
+    k = 0
+    for n in range(1, depth + 1):
+        for seq in itertools.product(FALPHA, repeat=n):
+            accs = [list(a) for a in seq]
+            for cls in (0, 1, 2):
+                k += 1
+                cti = cti_of[cls][k % 2]
+                chunkings = fpieces(BODIES[cls][0])
+                if n == 3 and tier == "quick":
+                    chunkings = [chunkings[k % len(chunkings)]]
+                for pieces in chunkings:
+                    for script, forgood in fault_scripts(pieces, n <= 2):
+                        yield "fault-exhaustive", mk_fault(cti, script, accs, forgood)
+    extra = {0: [b"[1, 2, 3, 4]", b'{"k": "v"}'], 1: [b"k=v&k=w&z", b"a=%41&b="], 2: [b"plain text"]}
+    for _ in range(4000 if tier == "quick" else 40000):
+        cls = rng.randrange(3)
+        cti = rng.choice(cti_of[cls])
+        body = rng.choice(BODIES[cls] + extra[cls])
+        cuts = sorted(set(rng.randrange(1, len(body)) for _ in range(rng.randrange(0, 4)))) if len(body) > 1 else []
+        pieces, prev = [], 0
+        for c in cuts + [len(body)]:
+            pieces.append(body[prev:c])
+            prev = c
+        script = [[0, p] for p in pieces if p]
+        for _ in range(rng.choice([0, 1, 1, 1, 2])):
+            script.insert(rng.randrange(len(script) + 1), list(FAIL))
+        accs = [[a[0], a[1], rng.choice([1, 2, 3, 5, 65536])] for a in
+                (rng.choice(ALPHA + [[PART, 0], [PART, 3]]) for _ in range(rng.randrange(1, 7)))]
+        yield "fault-random", mk_fault(cti, script, accs, rng.random() < 0.4)
+
+
+class ScriptedFaultInput:
+    """wsgi.input whose read() follows a script: return (at most n bytes of) a piece, or raise TimeoutError"""
+
+    def __init__(self, script, forgood):
+        self.script = [[it[0], bytes(it[1])] if it[0] == 0 else [1] for it in script]
+        self.forgood = forgood
+        self.dead = False
+        self.reads = []
+
+    def read(self, n=-1):
+        self.reads.append(n)
+        if self.dead:
+            raise TimeoutError("timed out")
+        if not self.script:
+            return b""
+        it = self.script[0]
+        if it[0] != 0:
+            self.script.pop(0)
+            if self.forgood:
+                self.dead = True
+            raise TimeoutError("timed out")
+        p = it[1]
+        if n < 0 or len(p) <= n:
+            self.script.pop(0)
+            return p
+        it[1] = p[n:]
+        return p[:n]
+
+
+def impl_fault(case):
+    from baize.wsgi import Request
+    _, _, script, accs, _, _, cti = case[:7]
+    ctv = CTS[cti][1]
+    inp = ScriptedFaultInput(script, len(case) > 7 and case[7])
+    env = {"REQUEST_METHOD": "POST", "SCRIPT_NAME": "", "PATH_INFO": "/", "QUERY_STRING": "", "SERVER_NAME": "t",
+           "SERVER_PORT": "80", "SERVER_PROTOCOL": "HTTP/1.1", "wsgi.version": (1, 0), "wsgi.url_scheme": "http",
+           "wsgi.input": inp, "CONTENT_LENGTH": str(len(fault_body(script)))}
+    if ctv:
+        env["CONTENT_TYPE"] = ctv
+    req = Request(env)
+    out, seen, keep = [], {}, []
+    for kind, k, cs in accs:
+        try:
+            if kind == BODY:
+                v = req.body
+            elif kind == STREAM:
+                v = [c for c in req.stream(cs)]
+            elif kind == JSON:
+                v = req.json
+            elif kind == FORM:
+                v = req.form
+            elif kind == CLOSE:
+                v = req.close()
+            else:
+                g = req.stream(cs)
+                keep.append(g)
+                v = []
+                for _ in range(k):
+                    try:
+                        v.append(next(g))
+                    except StopIteration:
+                        break
+            out.append(_canon(kind, (True, v), seen))
+        except Exception as e:  # noqa
+            out.append(_canon(kind, (False, e), seen))
+    return [out, [n for n in inp.reads]]
+
+
+def _needs_body(kind, k, cls):
+    return _derived(kind, k, cls) or kind == STREAM or (kind == PART and k > 0)
+
+
+def oracle_fault(case, obs):
+    _, cls, script, accs, _, _, cti = case[:7]
+    forgood = len(case) > 7 and case[7]
+    res, reads = obs[0], obs[1]
+    if len(res) != len(accs):
+        return ("shape", "observation has %d results for %d accesses" % (len(res), len(accs)))
+    full = fault_body(script)
+    jt, ft = tables(case)
+    # --- no piece is handed out twice, nothing is read after the end or after a failed read
+    left = [[it[0], bytes(it[1])] if it[0] == 0 else [1] for it in script]
+    eof = raised = False
+    for n in reads:
+        if raised:
+            return ("read-after-read-error", "wsgi.input.read was called again after a call had raised (reads %r, script %r)"
+                    % (reads, script))
+        if eof:
+            return ("input-read-after-end", "wsgi.input.read called again after it returned b'' (reads %r)" % (reads,))
+        if not left:
+            eof = True
+        elif left[0][0] != 0:
+            left.pop(0)
+            raised = True
+        elif n == 0 or not left[0][1]:
+            eof = True
+        elif len(left[0][1]) <= n:
+            left.pop(0)
+        else:
+            left[0][1] = left[0][1][n:]
+    failed = False
+    for (kind, k, cs), r in zip(accs, res):
+        needs = _needs_body(kind, k, cls)
+        if r[0] == "ok" and needs:
+            # --- a returned value is derived from ALL pieces, never from a proper part
+            if kind == BODY and _s2b(r[1]) != full:
+                return ("truncated-body", "body returned %r, the script %r carries %r" % (r[1], script, full))
+            if kind == STREAM and cs > 0 and b"".join(_s2b(c) for c in r[1]) != full:
+                return ("truncated-body", "stream() to the end yielded %r, the script %r carries %r" % (r[1], script, full))
+            if kind == PART and not full.startswith(b"".join(_s2b(c) for c in r[1])):
+                return ("stream-not-prefix", "%d items of stream() were %r, the script %r carries %r" % (k, r[1], script, full))
+            if kind in (JSON, FORM):
+                t = (jt if kind == JSON else ft)[0]
+                if not t[1] or r != ["ok", t[2], t[3]]:
+                    return ("truncated-body", "access %d returned %r, which is not what the whole body %r gives (%r)"
+                            % (kind, r, full, t))
+            # --- after a failed read nothing returns a value
+            if failed:
+                return ("value-after-read-error", "a read had raised before, yet access %r returned %r (script %r)"
+                        % ((kind, k, cs), r, script))
+            if fault_has(script) and (kind in (BODY, JSON, FORM) or (kind == STREAM and cs > 0)):
+                return ("value-despite-read-error", "access %r returned %r although a read of the script %r raises"
+                        % ((kind, k, cs), r, script))
+        elif r[0] == "exc" and r[1] in READ_ERRORS:
+            if failed:
+                return ("read-error-twice", "a read had raised before, access %r read the input again and raised %s"
+                        % ((kind, k, cs), r[1]))
+            if not needs:
+                return ("wrong-result", "access %r does not read the body, it gave %r" % ((kind, k, cs), r))
+            failed = True
+        elif r[0] == "exc" and failed and needs and r != ["exc", "RuntimeError"]:
+            return ("not-consumed-after-read-error", "a read had raised before, access %r gave %r instead of the documented "
+                    "RuntimeError" % ((kind, k, cs), r))
+        elif not needs:
+            want = ["ok"] if kind == CLOSE else ["ok", []] if kind == PART else ["exc", "UnsupportedMediaType"]
+            got = ["ok", [_s2b(c) for c in r[1]]] if r[0] == "ok" and kind == PART else r
+            if got != want:
+                return ("wrong-result", "access %r gave %r" % ((kind, k, cs), r))
+    return None
+
+
+def nontrivial_fault(case, obs):
+    """a read raised during an access and a later access needs the body"""
+    cls = case[1]
+    hit = [i for i, r in enumerate(obs[0]) if r[0] == "exc" and r[1] in READ_ERRORS]
+    if not hit:
+        return False
+    return any(_needs_body(a[0], a[1], cls) for a in case[3][hit[0] + 1:])
+
+
+def shrink_fault(case):
+    mode, cls, script, accs, jt, ft, cti = case[:7]
+    forgood = case[7] if len(case) > 7 else 0
+    for i in range(len(accs)):
+        yield mk_fault(cti, script, accs[:i] + accs[i + 1:], forgood)
+    for i in range(len(script)):
+        yield mk_fault(cti, script[:i] + script[i + 1:], accs, forgood)
+    if forgood:
+        yield mk_fault(cti, script, accs, 0)
 
 
 if __name__ == "__main__":
